@@ -230,6 +230,10 @@ namespace {
                 op.v[1] = (int64_t) r.below((uint64_t) phases);
                 op.v[2] = r.chance(1, 5) ? B_DROP : B_ARRIVE_THEN_WAIT;
                 op.v[3] = r.range(0, 3);
+                // the optional busy-wait timeout of wait/arrive_and_wait: spin for that long before blocking
+                // (0: none; 1-3: shorter and longer than the time the others take to arrive)
+                if (r.chance(1, 3)) op.v[4] = (int64_t) r.range(1, 3);
+                if (op.v[4] && r.chance(1, 2)) op.v[2] = B_ARRIVE_AND_WAIT;
                 p.push_back(op);
             }
             ctx.program = p;
@@ -237,11 +241,14 @@ namespace {
         // resolve actions; a participant may drop only if somebody remains
         std::vector<std::vector<int>> action((size_t) n, std::vector<int>((size_t) phases, B_ARRIVE_AND_WAIT));
         std::vector<std::vector<int>> yields((size_t) n, std::vector<int>((size_t) phases, 0));
+        std::vector<std::vector<double>> busy((size_t) n, std::vector<double>((size_t) phases, 0.0));
+        static double const busy_s[4] = {0.0, 1e-9, 2e-6, 1e-4};
         for (auto const& op : ctx.program)
         {
             if (op.v[0] < 0 || op.v[0] >= n || op.v[1] < 0 || op.v[1] >= phases) continue;
             action[(size_t) op.v[0]][(size_t) op.v[1]] = (int) op.v[2];
             yields[(size_t) op.v[0]][(size_t) op.v[1]] = (int) op.v[3];
+            busy[(size_t) op.v[0]][(size_t) op.v[1]] = busy_s[op.v[4] & 3];
         }
         BS.n = n;
         BS.phases = phases;
@@ -283,11 +290,13 @@ namespace {
         static Parties P;
         std::vector<int> kinds;
         for (int i = 0; i < n; i++) kinds.push_back((os_mask >> i) & 1 ? PARTY_OS : PARTY_TASK);
-        P.launch(kinds, [kinds, action, yields, phases](int me) {
+        P.launch(kinds, [kinds, action, yields, busy, phases](int me) {
             int kind = kinds[(size_t) me];
             for (int k = 0; k < phases; k++)
             {
                 int a = action[(size_t) me][(size_t) k];
+                std::chrono::duration<double> const bw(busy[(size_t) me][(size_t) k]);
+                if (bw.count() > 0) probe("barrier.busy_wait_timeout");
                 yield_here(kind, yields[(size_t) me][(size_t) k] & 1);
                 BS.arrived[(size_t) k]++;
                 ev(10 + a, me, k);
@@ -301,11 +310,11 @@ namespace {
                 {
                     auto tok = bar.arrive();
                     yield_here(kind, yields[(size_t) me][(size_t) k]);
-                    bar.wait(std::move(tok));
+                    bar.wait(std::move(tok), bw);
                     probe("barrier.arrive_then_wait");
                 }
                 else
-                    bar.arrive_and_wait();
+                    bar.arrive_and_wait(bw);
                 // departure from phase k: everybody expected has arrived and the completion ran
                 VH_CHECK(BS.arrived[(size_t) k] == BS.expected[(size_t) k], "C09.barrier.early_departure",
                     "participant %d left phase %d after %d of %d arrivals", me, k, BS.arrived[(size_t) k],
